@@ -32,23 +32,20 @@ Proof.
   - destruct (MapTree.usage_is (e_usage e) "N" || MapTree.usage_is (e_usage e) "S").
     { intros H. injection H as <- <-. exists []. rewrite app_nil_r. reflexivity. }
     destruct (MapTree.usage_is (e_usage e) "R").
-    { destruct (negb (e_seq e =? 1)%Z || match pc with None => true | Some (pu, _) => MapTree.usage_is pu "R" end);
-        intros H; injection H as <- <-; [eexists; reflexivity | exists []; rewrite app_nil_r; reflexivity]. }
+    { intros H; injection H as <- <-; eexists; reflexivity. }
     apply (M []). reflexivity.
   - destruct v as [|a x].
     + destruct (MapTree.usage_is (e_usage e) "N" || MapTree.usage_is (e_usage e) "S").
       { intros H. injection H as <- <-. exists []. rewrite app_nil_r. reflexivity. }
       destruct (MapTree.usage_is (e_usage e) "R").
-      { destruct (negb (e_seq e =? 1)%Z || match pc with None => true | Some (pu, _) => MapTree.usage_is pu "R" end);
-          intros H; injection H as <- <-; [eexists; reflexivity | exists []; rewrite app_nil_r; reflexivity]. }
+      { intros H; injection H as <- <-; eexists; reflexivity. }
       apply (M []). reflexivity.
     + apply (M (a :: x)). reflexivity.
   - intros H. injection H as <- <-. eexists; reflexivity.
   - destruct (MapTree.usage_is (e_usage e) "N" || MapTree.usage_is (e_usage e) "S").
     { intros H. injection H as <- <-. exists []. rewrite app_nil_r. reflexivity. }
     destruct (MapTree.usage_is (e_usage e) "R").
-    { destruct (negb (e_seq e =? 1)%Z || match pc with None => true | Some (pu, _) => MapTree.usage_is pu "R" end);
-        intros H; injection H as <- <-; [eexists; reflexivity | exists []; rewrite app_nil_r; reflexivity]. }
+    { intros H; injection H as <- <-; eexists; reflexivity. }
     discriminate.
 Qed.
 
